@@ -11,8 +11,15 @@ namespace Tw
 abbrev Byte := Nat
 abbrev Bytes := List Nat
 
-/-- bytes of an ASCII/UTF-8 Lean string literal -/
-def b (s : String) : Bytes := s.toUTF8.toList.map (·.toNat)
+/-- UTF-8 encoding of a code point (of a Lean `Char`, hence never a surrogate) -/
+def utf8Bytes (r : Nat) : Bytes :=
+  if r < 0x80 then [r]
+  else if r < 0x800 then [0xC0 + r / 64, 0x80 + r % 64]
+  else if r < 0x10000 then [0xE0 + r / 4096, 0x80 + r / 64 % 64, 0x80 + r % 64]
+  else [0xF0 + r / 262144, 0x80 + r / 4096 % 64, 0x80 + r / 64 % 64, 0x80 + r % 64]
+
+/-- bytes of a Lean string literal (defined through `String.toList` so that it reduces in proofs) -/
+def b (s : String) : Bytes := s.toList.flatMap fun c => utf8Bytes c.toNat
 
 /-- Outcome of a fuel-driven model function.
     `oof` (out of fuel) is distinct from an error, and a Go panic is explicit. -/
